@@ -38,8 +38,9 @@ def dataset(i, dseed):
 
 
 NUMERIC = {
-    'LMNN': dict(n_neighbors=[1, 2], regularization=[0.3, 0.7], max_iter=[5, 12]),
-    'NCA': dict(max_iter=[3, 8]), 'MLKR': dict(max_iter=[3, 8]),
+    'LMNN': dict(n_neighbors=[1, 2], regularization=[0.3, 0.7], max_iter=[5, 12], init=['auto', 'pca', 'identity', 'random', 'lda'], n_components=[None, 2, 1]),
+    'NCA': dict(max_iter=[3, 8], init=['auto', 'pca', 'identity', 'random', 'lda'], n_components=[None, 2, 1]),
+    'MLKR': dict(max_iter=[3, 8], init=['auto', 'pca', 'identity', 'random'], n_components=[None, 2, 1]),
     'LFDA': dict(k=[None, 1, 2], embedding_type=['weighted', 'plain', 'orthonormalized']),
     'RCA': dict(n_components=[None, 2]), 'RCA_Supervised': dict(n_components=[None, 2]), 'Covariance': dict(),
     'ITML': dict(gamma=[0.5, 2.0], max_iter=[3, 15]), 'ITML_Supervised': dict(gamma=[0.5, 2.0], n_constraints=[12, 30]),
@@ -171,6 +172,8 @@ class Model:
     self.track('fit-data[%d]' % i, args)
     self.track('fit-kwargs', list(kw.values()))
     exp = (RuntimeError,) if 'SDML' in self.name else (ValueError,) if (self.name.startswith('MMC') and self.params.get('diagonal')) else ()
+    if self.name in ('LMNN', 'NCA') and isinstance(self.params.get('init'), str) and self.params.get('init') == 'lda':
+      exp = (ValueError,)        # lda needs n_components <= n_classes - 1 (documented)
     r = E.fit_call('C17/fit', self.name, self.est, args, self.data[i].desc, self.params, expect=exp, kw=kw)
     if isinstance(r, Exception):
       raise Discard('specified fit failure (%s)' % type(r).__name__)
@@ -256,6 +259,10 @@ class Model:
     v = vals[idx % len(vals)]
     self.params[key] = v
     call('C17/set_params/' + self.name, self.est.set_params, **{key: v})
+    if key == 'n_components' and isinstance(self.params.get('init'), np.ndarray):
+      # an array init fixes the output dimensionality: go back to a string option (a mismatch is a documented ValueError)
+      self.params['init'] = 'auto'
+      self.est.set_params(init='auto')
     self.stale = True
     self.after('set_params(%s)' % key)
     return True
@@ -285,6 +292,9 @@ class Model:
       arr = gen.spd_from_seed(d, aseed)
     else:
       arr = gen.transform_from_seed(d, d, aseed)
+      if 'n_components' in self.params:
+        self.params['n_components'] = None
+        self.est.set_params(n_components=None)
     self.params[p] = arr
     self.est.set_params(**{p: arr})
     if isinstance(arr, np.ndarray):
@@ -504,6 +514,8 @@ def shards(tier):
 def run_shard(shard, tier, seed, stats, known_sigs):
   name = shard['est']
   n, steps = _B[tier]
+  if name in ('Covariance', 'RCA', 'LFDA', 'NCA', 'MLKR', 'LMNN', 'RCA_Supervised'):
+    n *= 2           # cheap fits: more histories
   failures = []
   known = set(known_sigs)
   suppressed = set()
